@@ -213,6 +213,40 @@ def run(tier):
             traces.append({'id': 100000 + j, 'events': events, 'expected': len(events), 'warm': False,
                            'fpBefore': 0, 'fpAfter': I.setdefault(fp, len(I) + 1), 'fpWarm': I.setdefault(seq_ref, len(I) + 1),
                            'raised': ';'.join(seq_errors[:2]), 'schedule': ['sequential'] + list(perm), 'progs': {}, 'cold': True, 'yields': {}})
+        # call histories: many small programs (string literals with every prefix and escape, semantic-rule statements)
+        # through one warm grammar in several orders; every result must be the fresh interpreter's and the shared
+        # state must not move (state remembered from one call to a later one: memo tables keyed by text, counters)
+        from checks import _semctx
+        from harness import inputs
+        lits = inputs.escape_literals()
+        hist_texts = ['x = %s\n' % l for l in rng.sample(lits, min(len(lits), 60 if tier == 'quick' else 400))]
+        hist_texts += [s + '\n' for s in rng.sample(_semctx.STMTS, 30 if tier == 'quick' else len(_semctx.STMTS))]
+        hist_texts = sorted(set(hist_texts))
+        vh = rng.choice(VERSIONS)
+        fresh_h = oracle([[vh, x] for x in hist_texts])
+        orders = [list(hist_texts), list(reversed(hist_texts))]
+        for _ in range(2 if tier == 'quick' else 10):
+            o = list(hist_texts)
+            rng.shuffle(o)
+            orders.append(o)
+        for j, order in enumerate(orders):
+            herr = []
+            for x in TEXTS:
+                safe_program(vh, x, ('errors', 'tokens'), [])
+            fp0 = sched.fingerprint()[0]
+            events = []
+            I = run_once.interned
+            for x in order:
+                for key, d in safe_program(vh, x, ('errors', 'tokens'), herr):
+                    events.append({'thread': 0, 'key': key, 'digest': I.setdefault(d, len(I) + 1),
+                                   'fresh': I.setdefault(fresh_h.get(key, 'missing'), len(I) + 1)})
+            fp1 = sched.fingerprint()[0]
+            traces.append({'id': 200000 + j, 'events': events, 'expected': 4 * len(order), 'warm': True,
+                           'fpBefore': I.setdefault(fp0, len(I) + 1), 'fpAfter': I.setdefault(fp1, len(I) + 1),
+                           'fpWarm': I.setdefault(fp1, len(I) + 1), 'raised': ';'.join(herr[:2]),
+                           'schedule': ['history', vh, j], 'progs': {'order': [t[:40] for t in order[:12]]}, 'cold': False,
+                           'yields': {}})
+        out.cov(history_orders=len(orders), history_calls_per_order=len(hist_texts))
         sched.reset_memo()
         slim = [{k: t[k] for k in ('id', 'events', 'expected', 'warm', 'fpBefore', 'fpAfter', 'fpWarm', 'raised')}
                 for t in traces]
